@@ -40,6 +40,9 @@ static const scen SC[] = {
 	{ "inactive + suspend: activate first, resume later", 'I', 0, { "UVzR", "a", 0 } },
 	{ "inactive + suspend: resume first, activate later", 'I', 0, { "URzV", "a", 0 } },
 	{ "inactive queue: two submitters race with activate", 'I', 0, { "V", "a", "s" } },
+	{ "inactive queue: activate racing a suspend/resume pair from another thread", 'I', 0, { "aV", "UzR", 0 } },
+	{ "inactive queue: activate racing two nested suspends from another thread", 'I', 0, { "aV", "UUzRR", 0 } },
+	{ "inactive queue: activate racing a resume (suspended before activation)", 'I', 0, { "UaVz", "zR", 0 } },
 };
 #define NSC ((int)(sizeof(SC) / sizeof(SC[0])))
 // (a) sequential nesting depths: N suspends, one async, N-1 resumes, sleep, last resume
